@@ -223,6 +223,13 @@ def run(ctx, R, tier):
         if o.key in ("C05-R3|handleRequest|error-reply-table", "C05-R4|_sendExceptionResponse|first-dumps-guarded", "C05-R4|_sendExceptionResponse|fallback-pyroerror"):
             R.add("C07-R3", o.key.split("|", 1)[1], o.desc, o.ok, o.loc, o.detail)
 
+    gpt = ctx.fn("Pyro5.errors.get_pyro_traceback")
+    reads_tb = any(isinstance(n, ast.Call) and isinstance(n.func, ast.Name) and n.func.id == "getattr" and len(n.args) >= 2 and isinstance(n.args[1], ast.Constant)
+                   and n.args[1].value == "_pyroTraceback" for n in ast.walk(gpt.node)) or \
+        any(isinstance(n, ast.Attribute) and n.attr == "_pyroTraceback" for n in ast.walk(gpt.node))
+    R.check(reads_tb and bool(tb), "C07-R3", "traceback|attribute-name-agrees", "the attribute the server stores the remote traceback in is the one errors.get_pyro_traceback reads", gpt.loc(),
+            "server and client disagree on the name of the remote-traceback attribute")
+
     # ---------------------------------------------------------------- R4
     inv = ctx.fn("Pyro5.client.Proxy._pyroInvoke")
     icfg = ctx.cfg(inv)
